@@ -8,4 +8,5 @@ MCPre == {[key |-> "k1", val |-> "o1"], [key |-> "k2", val |-> "o2"]}
 MCDebris == {[name |-> "old", age |-> 4000], [name |-> "young", age |-> 10]}
 NoDebris == {}
 NoKeyShards == <<>>
+NoPreRO == {}
 ====
